@@ -20,11 +20,21 @@
 (* TLC's counterexample for the code as found (F15).                       *)
 (***************************************************************************)
 EXTENDS Raster, Json
-CONSTANTS MaxN, BoxStride, CatStride, PairStride, SameStride, AttrStride, ShapeFrom
+CONSTANTS MaxN, BoxStride, CatStride, PairStride, SameStride, AttrStride, TripleStride, ShapeFrom
 VARIABLES c, pc, k, rast, res
 vars == <<c, pc, k, rast, res>>
 
-Cat == Catalogue(FMAXT)
+\* the shared catalogue plus shapes with HOLES wide enough to contain cell centres: a cell under a hole has its centre
+\* outside the geometry and must stay unmarked, in a Polygon and in every part of a MultiPolygon alike
+RectR(s, l, e, h) == <<<<s, l>>, <<e, l>>, <<e, h>>, <<s, h>>, <<s, l>>>>
+Holed == <<
+  G("MultiPolygon", <<<<RectR(0, 0, 6, 4), RectR(2, 1, 4, 3)>>, <<RectR(7, 0, 8, 2)>>>>),
+  G("MultiPolygon", <<<<RectR(0, 0, 4, 8), RectR(1, 2, 3, 6)>>, <<RectR(5, 0, 12, 8), RectR(6, 1, 11, 7)>>>>),
+  G("MultiPolygon", <<<<RectR(1, 1, 12, 9), RectR(3, 3, 9, 7)>>>>),
+  G("Polygon", <<RectR(0, 0, 12, 8), RectR(2, 2, 10, 6)>>)
+>>
+NBase == Len(Catalogue(FMAXT))
+Cat == Catalogue(FMAXT) \o Holed
 Spacings == <<[t0 |-> 2, ts |-> 2, f0 |-> 0, fs |-> 2],
               [t0 |-> 0, ts |-> 3, f0 |-> 2, fs |-> 2],
               [t0 |-> 1, ts |-> 2, f0 |-> 3, fs |-> 3]>>
@@ -51,7 +61,7 @@ Pick(ax, n) == LET w == Hi(ax) - Lo(ax) + 1
 (* ---- descriptors (integers and strings only, so that they form one set) ---- *)
 TplD == [T : 1..MaxN, F : 1..MaxN, order : {"ft", "tf"}, sp : 1..3, su : {0}, sa : {0}]
 D(td, gk, a, b, d, e, g2, mm) ==
-    [T |-> td.T, F |-> td.F, order |-> td.order, sp |-> td.sp, su |-> 0, sa |-> 0, gk |-> gk, a |-> a, b |-> b, d |-> d, e |-> e, g2 |-> g2, mm |-> mm]
+    [T |-> td.T, F |-> td.F, order |-> td.order, sp |-> td.sp, su |-> 0, sa |-> 0, gk |-> gk, a |-> a, b |-> b, d |-> d, e |-> e, g2 |-> g2, g3 |-> 0, mm |-> mm]
 Hash(x) == x.a * 31 + x.d * 17 + x.b * 7 + x.e * 3 + x.T + 2 * x.F + x.sp + (IF x.order = "ft" THEN 0 ELSE 5)
 \* boxes: every time pair with a varying frequency pair, and every frequency pair with a varying time pair
 BoxD(td) == LET ta == TAxis(Tpl(td))  fa == FAxis(Tpl(td)) IN
@@ -63,6 +73,7 @@ CatD(td) == {D(td, "cat", i, m, 0, 0, 0, 0) : i \in 1..Len(Cat), m \in 1..2}
 \* a time coordinate of the box equals one of its frequency coordinates as a number and falls into a different bin there
 Coincide(y) == LET tp == Tpl([y EXCEPT !.su = 1]) IN
     \E v \in {y.a, y.d} \cap {y.b, y.e} : BinClamp(TAxis(tp), v) # BinClamp(FAxis(tp), v)
+MarksCells(y) == BoxCells(Tpl(y), <<"clamp", "clamp">>, <<y.a, y.b, y.d, y.e>>) # {}
 Descriptors ==
     UNION {LET bx == BoxD(td)  ct == CatD(td) IN
                {x \in bx : Hash(x) % BoxStride = 0}
@@ -79,6 +90,11 @@ Descriptors ==
          \cup  {[x EXCEPT !.su = 1] : x \in {y \in bx : Coincide(y) /\ Hash(y) % SameStride = 0}}
          \cup  {[x EXCEPT !.su = 1, !.g2 = j] : x \in {y \in bx : Hash(y) % (2 * SameStride) = 1}, j \in {1, 3}}
          \cup  {[x EXCEPT !.su = 1] : x \in {y \in ct : Hash(y) % (2 * CatStride) = 0}}
+         \* the holed shapes, on every second template and scale
+         \cup  {x \in ct : x.a > NBase /\ Hash(x) % 2 = 0}
+         \* lists of three (A, B, A'): A' is A again (g3 = 1) or another box in the same bins (g3 = 2), B overlaps them;
+         \* three distinct values, so the cells of A under B must end up with the value of A' -- painter's order
+         \cup  {[x EXCEPT !.g2 = j, !.g3 = q] : x \in {y \in bx : Hash(y) % TripleStride = 1 /\ MarksCells(y)}, j \in 1..2, q \in 1..2}
          \* stale or missing step attributes (sa = 1, 2, 3): boxes, and a few catalogue shapes
          \cup  {[x EXCEPT !.sa = q] : x \in {y \in bx : Hash(y) % AttrStride = 3}, q \in 1..3}
          \cup  {[x EXCEPT !.sa = q] : x \in {y \in ct : Hash(y) % (4 * CatStride) = 3}, q \in 1..2}
@@ -108,17 +124,24 @@ Second(x, tp, j) ==
     IF j = 3 THEN G("BoundingBox", <<x.b, tp.f0 + 1, x.e, tp.f0 + tp.fs + 1>>)
     ELSE IF j = 1 THEN G("BoundingBox", <<tp.t0 + tp.ts - 1, tp.f0, tp.t0 + 2 * tp.ts, tp.f0 + tp.fs + 1>>)
     ELSE G("Polygon", <<<<<<tp.t0, tp.f0>>, <<tp.t0 + tp.T * tp.ts, tp.f0>>, <<tp.t0, tp.f0 + tp.F * tp.fs>>, <<tp.t0, tp.f0>>>>>>)
+\* a different box in the same bins as <<a, b, d, e>>: every coordinate inside the axis range moves to the coordinate
+\* of its bin (LawSameBins: the mapped box is the same under both readings)
+Snap(ax, v) == IF v < Coord(ax, 1) \/ v > Coord(ax, ax.n) THEN v ELSE Coord(ax, BinClamp(ax, v) + 1)
+SameBins(x, tp) == G("BoundingBox", <<Snap(TAxis(tp), x.a), Snap(FAxis(tp), x.b), Snap(TAxis(tp), x.d), Snap(FAxis(tp), x.e)>>)
+Third(x, tp) == IF x.g3 = 1 THEN First(x) ELSE SameBins(x, tp)
 Fills == <<0, -1, 7>>
 Concrete(x) ==
     LET tp == Tpl(x)
         n  == Hash(x)
-        gs == IF x.g2 = 0 THEN <<First(x)>> ELSE <<First(x), Second(x, tp, x.g2)>>
+        gs == IF x.g2 = 0 THEN <<First(x)>>
+              ELSE IF x.g3 = 0 THEN <<First(x), Second(x, tp, x.g2)>> ELSE <<First(x), Second(x, tp, x.g2), Third(x, tp)>>
         fl == Fills[(n % 3) + 1]
         dt == IF fl < 0 THEN <<"float32", "int16">>[(n % 2) + 1] ELSE <<"float32", "uint8", "int32", "float64">>[((n \div 3) % 4) + 1]
-        sc == x.mm = 0 /\ (n \div 2) % 3 = 0
+        sc == x.mm = 0 /\ x.g3 = 0 /\ (n \div 2) % 3 = 0
         vs == CASE x.mm = 1 -> IF Len(gs) = 1 THEN <<>> ELSE <<4>>
                 [] x.mm = 2 -> IF Len(gs) = 1 THEN <<1, 2>> ELSE <<1, 2, 3>>
-                [] OTHER    -> IF sc THEN <<5>> ELSE IF Len(gs) = 1 THEN <<1 + (n % 3)>> ELSE <<2 + (n % 2), 4>>
+                [] OTHER    -> IF sc /\ x.g3 = 0 THEN <<5>> ELSE IF Len(gs) = 1 THEN <<1 + (n % 3)>>
+                               ELSE IF Len(gs) = 2 THEN <<2 + (n % 2), 4>> ELSE <<2 + (n % 2), 4, 6>>
     IN  [tpl |-> tp, geoms |-> gs, values |-> vs, scalar |-> sc, fill |-> fl, dt |-> dt]
 
 (* ---- Impl: rasterize as written ---- *)
@@ -204,6 +227,9 @@ LawCellsMonotone == LawAt => LET cs == Case IN \A j \in 1..NG(cs) : BoxLike(cs.g
 LawInIsTouched == LawAt => LET cs == Case IN \A j \in 1..NG(cs) : Areal(cs.geoms[j]) => \A rr \in RRFor(cs.tpl, cs.geoms[j]) :
     LET mp == TLCEval(MParts(cs.tpl, rr, cs.geoms[j])) IN
     \A cell \in CellsOf(cs.tpl) : StatusM(mp, Areal(cs.geoms[j]), FALSE, cell) = "in" => Touched(mp, cell)
+\* the third box of a list (A, B, A') lies in the same bins as the first under every reading
+LawSameBins == (LawAt /\ c.g3 # 0) => LET cs == Case IN
+    \A rr \in RR : BoxIdx(cs.tpl, rr, BoxOf(cs.geoms[3])) = BoxIdx(cs.tpl, rr, BoxOf(cs.geoms[1]))
 LawSatisfiable == LawAt => LET cs == Case IN \A a \in BOOLEAN : LET tb == Tab(cs, a) IN
     \A cell \in CellsOf(cs.tpl) : Allowed(cs, tb, cell) # {}
 =============================================================================
